@@ -25,10 +25,11 @@ CHUNK = 2
 CASE_WALL = {"quick": 180, "thorough": 600}
 ENUMERATED = {"quick": False, "thorough": False}
 SHRINK_FIELDS = ("ops",)
-RULE = ("'unload' cases = (overlay scenario among the 9 shipped classes + the multiplexed node, which node, unload at script step k "
-        "(every k in the thorough tier and in the first pass of quick) or at a seeded virtual time, network knobs); after the "
-        "unload: late genuine datagrams of every captured message id + all 256 ids with garbage, then 7200 virtual seconds. "
-        "'tm' cases = seeded register/replace/cancel/advance sequences on a real TaskManager. Non-trivial = unload requested "
+RULE = ("'unload' cases = (overlay scenario among the 9 shipped classes, the multiplexed node, five real ipv8_service.IPv8 instances "
+        "with the default configuration, a DHT crawl towards crashed nodes, a Community with the UDP broadcast bootstrapper; which node, unload at script step k "
+        "(every k in the thorough tier and in the first pass of quick) or at a seeded virtual time, network knobs); during the "
+        "unload of a tunnel overlay another peer sends it a create and data; after the unload: late genuine datagrams of every captured message id + all 256 ids with garbage, then 7200 virtual seconds. "
+        "'tm' cases = seeded register/replace/cancel/advance sequences on a real TaskManager, tasks with and without asynchronous clean-up. Non-trivial = unload requested "
         "while the overlay had pending tasks, request caches or open transports; distinct by (scenario, node, step, what was "
         "pending).")
 COMPONENTS = {"real": ["all shipped overlay classes with default settings", "Overlay/Community.unload", "TaskManager", "RequestCache",
